@@ -292,13 +292,14 @@ impl<'a> Page<'a> {
             return Err(Error::WalProtocol("index page: not internal"));
         }
         let n = self.cell_count();
-        // upper_bound: first key > target
+        // lower_bound: first separator >= target. Entries equal to a separator may sit on both
+        // sides of it, so the leftmost child that can hold `target` is the one left of it.
         let mut lo = 0usize;
         let mut hi = n;
         while lo < hi {
             let mid = (lo + hi) / 2;
             let (k, _) = self.internal_cell_key_and_right_child(mid)?;
-            if k <= target {
+            if k < target {
                 lo = mid + 1;
             } else {
                 hi = mid;
@@ -487,11 +488,8 @@ impl BTree {
                                         .map(|(k, v)| (k.to_vec(), v))
                                 })
                                 .collect::<Result<Vec<_>>>()?;
-                            // Insert new entry into the sorted list.
-                            let pos = entries
-                                .binary_search_by(|(k, _)| k.as_slice().cmp(key))
-                                .unwrap_or_else(|p| p);
-                            entries.insert(pos, (key.to_vec(), payload));
+                            // Insert new entry into the sorted list, in front of equal keys.
+                            entries.insert(idx, (key.to_vec(), payload));
 
                             let mid = entries.len() / 2;
                             let left_entries = entries[..mid].to_vec();
@@ -535,24 +533,31 @@ impl BTree {
             let kind = Page::new(&mut buf).kind()?;
             match kind {
                 PageKind::Leaf => {
-                    let mut page = Page::new(&mut buf);
-                    // Use binary search to find exact match
-                    let cells = (0..page.cell_count())
-                        .map(|i| {
-                            page.leaf_cell_key_and_payload(i)
-                                .map(|(k, v)| (k.to_vec(), v))
-                        })
-                        .collect::<Result<Vec<(Vec<u8>, u64)>>>()?;
-                    if let Ok(idx) =
-                        cells.binary_search_by(|(k, v)| (k.as_slice(), *v).cmp(&(key, payload)))
-                    {
-                        // Found it, delete in place
-                        page.delete_from_leaf(idx)?;
-                        pager.write_page(cur, &buf)?;
-                        return Ok(true);
-                    } else {
-                        // Not found in this leaf
-                        return Ok(false);
+                    // Leaves are ordered by key only: walk the run of equal keys, which may
+                    // continue in the right siblings, until the payload matches.
+                    let mut idx = Page::new(&mut buf).leaf_lower_bound(key)?;
+                    loop {
+                        let mut page = Page::new(&mut buf);
+                        if idx >= page.cell_count() {
+                            let next = page.right_sibling();
+                            if next.as_u64() == 0 {
+                                return Ok(false);
+                            }
+                            cur = next;
+                            buf = pager.read_page(cur)?;
+                            idx = 0;
+                            continue;
+                        }
+                        let (k, v) = page.leaf_cell_key_and_payload(idx)?;
+                        if k != key {
+                            return Ok(false);
+                        }
+                        if v == payload {
+                            page.delete_from_leaf(idx)?;
+                            pager.write_page(cur, &buf)?;
+                            return Ok(true);
+                        }
+                        idx += 1;
                     }
                 }
                 PageKind::Internal => {
@@ -585,8 +590,8 @@ impl BTree {
         }
         let mut entries = self.scan_all(pager)?;
         let pos = entries
-            .binary_search_by(|(k, v)| (k.as_slice(), *v).cmp(&(key, payload)))
-            .ok();
+            .iter()
+            .position(|(k, v)| k.as_slice() == key && *v == payload);
         let Some(i) = pos else {
             return Ok(false);
         };
